@@ -1,6 +1,7 @@
 /* C07 (+C06 postlude): replays MBuffObj.tla scripts on real spif_mbuff objects, or records executions for
  * MBuffObjTrace.tla (expected tokens "?").
  *
+ * Link with -Wl,--wrap=read (fault schedules for the descriptor constructor, see "environment faults" below).
  * usage: mbuff_replay <direct|table> <scriptfile> [first]
  *   direct : calls the public spif_mbuff_*() functions
  *   table  : calls the same operations through the slots of the class table (spif_mbuff_mbuffclass), so that
@@ -13,6 +14,9 @@
  *     buff == NULL  =>  len == 0 and size == 0;   0 <= len <= size;   the heap block behind buff holds >= size bytes;
  *     get_len()/get_size() report the fields;  the object still carries the mbuff class.
  */
+#ifndef _GNU_SOURCE
+# define _GNU_SOURCE 1            /* fopencookie */
+#endif
 #include "common.h"
 #include <sys/types.h>
 #include <sys/wait.h>
@@ -215,6 +219,95 @@ static spif_mbuff_t from_input(int use_fp, const char *kind, const unsigned char
     return r;
 }
 
+/* ---- environment faults (round 3): read() interposed at link time (-Wl,--wrap=read), custom streams for FILE* ------------
+ * A schedule is a flat list of (kind, value) pairs, one pair per read call of the constructor under test:
+ *     0 x = deliver normally     1 x = short read: deliver at most x bytes     2 e = fail with errno e-th of fault_errnos
+ * calls behind the end of the list are served normally.  The wrapper is armed only for the descriptor / stream handed to
+ * the constructor, and reports what the ENVIRONMENT actually did: whether an EINTR / another error was returned and how
+ * many bytes were delivered in total - these observations travel in the recorded event (MBuffObj.tla: OpNewFault). */
+static const int fault_errnos[] = { 0, EINTR, EAGAIN, ECONNRESET, EIO };
+static long fsched[64]; static int fsched_n, fcall;
+static int fault_fd = -1;
+static int f_hit_eintr, f_hit_hard; static long f_delivered;
+static void fault_arm(const char *tok) {
+    fsched_n = vh_intlist(tok, fsched, 64); if (fsched_n > 64) fsched_n = 64;
+    fcall = 0; f_hit_eintr = f_hit_hard = 0; f_delivered = 0;
+}
+/* the directive for the next read call: returns 0 = serve (at most *limit bytes), else the errno to fail with */
+static int fault_next(size_t *limit) {
+    int k = fcall++;
+    if (2 * k + 1 < fsched_n) {
+        long kind = fsched[2 * k], v = fsched[2 * k + 1];
+        if (kind == 1 && v >= 0 && (size_t) v < *limit) *limit = (size_t) v;
+        if (kind == 2 && v >= 1 && v <= 4) {
+            int e = fault_errnos[v];
+            if (e == EINTR) f_hit_eintr = 1; else f_hit_hard = 1;
+            return e;
+        }
+    }
+    return 0;
+}
+ssize_t __real_read(int fd, void *buf, size_t count);
+ssize_t __wrap_read(int fd, void *buf, size_t count) {
+    ssize_t r; size_t limit = count; int e;
+    if (fd != fault_fd || fault_fd < 0) return __real_read(fd, buf, count);
+    if ((e = fault_next(&limit))) { errno = e; return -1; }
+    r = __real_read(fd, buf, limit);
+    if (r > 0) f_delivered += r;
+    return r;
+}
+/* a FILE* over a memory block with the same schedule; seekable or not */
+typedef struct { const unsigned char *p; size_t n, pos, junk, hi; int seekable; } cookie_t;
+static ssize_t ck_read(void *c, char *buf, size_t size) {
+    cookie_t *k = (cookie_t *) c; size_t limit = size, left = k->n - k->pos; int e;
+    if ((e = fault_next(&limit))) { errno = e; f_hit_hard = 1; f_hit_eintr = 0; return -1; }   /* stdio knows only "error" */
+    if (limit > left) limit = left;
+    memcpy(buf, k->p + k->pos, limit); k->pos += limit;
+    if (k->pos > k->hi) k->hi = k->pos;                     /* delivered = high-water mark of CONTENT bytes handed out */
+    f_delivered = (k->hi > k->junk) ? (long) (k->hi - k->junk) : 0;
+    return (ssize_t) limit;
+}
+static int ck_seek(void *c, off64_t *off, int whence) {
+    cookie_t *k = (cookie_t *) c; off64_t np;
+    if (!k->seekable) { errno = ESPIPE; return -1; }
+    np = (whence == SEEK_SET) ? *off : (whence == SEEK_CUR ? (off64_t) k->pos + *off : (off64_t) k->n + *off);
+    if (np < 0 || np > (off64_t) k->n) { errno = EINVAL; return -1; }
+    k->pos = (size_t) np; *off = np;
+    return 0;
+}
+/* constructor / re-initialisation under a fault schedule.  kind: file | seek | pipe */
+static spif_mbuff_t from_input_fault(int use_fp, const char *kind, const unsigned char *p, size_t n, const char *sched,
+                                     spif_mbuff_t self, spif_bool_t *ok) {
+    spif_mbuff_t r = self;
+    if (use_fp) {
+        cookie_t ck; cookie_io_functions_t io; FILE *fp; unsigned char *blk; size_t j = 0, i;
+        int seekable = strcmp(kind, "pipe") != 0;
+        if (!strcmp(kind, "seek")) j = junk_len(n);
+        blk = (unsigned char *) malloc(j + n + 1);
+        for (i = 0; i < j; i++) blk[i] = (unsigned char) (0x55 + 7 * i);
+        memcpy(blk + j, p, n);
+        ck.p = blk; ck.n = j + n; ck.pos = 0; ck.seekable = seekable; ck.junk = j; ck.hi = 0;
+        memset(&io, 0, sizeof(io)); io.read = ck_read; io.seek = ck_seek;
+        fp = fopencookie(&ck, "r", io);
+        if (!fp) { perror("fopencookie"); _exit(2); }
+        if (j && fseek(fp, (long) j, SEEK_SET) != 0) _exit(2);
+        fault_arm(sched);
+        if (self) *ok = M_INIT_FROM_FP(self, fp); else { r = M_NEW_FROM_FP(fp); *ok = (r != NULL); }
+        fsched_n = 0;
+        fclose(fp);
+        free(blk);
+    } else {
+        int is_seek, fd = make_input(kind, p, n, &is_seek);
+        fault_arm(sched);
+        fault_fd = fd;
+        if (self) *ok = M_INIT_FROM_FD(self, fd); else { r = M_NEW_FROM_FD(fd); *ok = (r != NULL); }
+        fault_fd = -1; fsched_n = 0;
+        close(fd);
+        reap_writer();
+    }
+    return r;
+}
+
 /* ---- script interface ------------------------------------------------------------------------------------------ */
 static void vh_begin(void) { S[0] = S[1] = (spif_mbuff_t) NULL; }
 static void vh_end(void) {
@@ -248,6 +341,10 @@ static const char *vh_step(const vh_step_t *st, vh_sb *ret, vh_sb *state) {
 
     if (op[0] == 'b' && op[1] == '_') { me = 1; op += 2; }
     m = S[me];
+    {   /* adversarial prelude: errno as an earlier, unrelated call may have left it */
+        static const int stale[] = { 0, EINTR, ERANGE, EAGAIN };
+        errno = stale[(vh_cur_step + (int) (vh_cur_sid & 3)) & 3];
+    }
 
     if (me == 1 && OP("dup_to_a")) {
         NEED_LIVE(1); NEED_ABSENT(0);
@@ -285,6 +382,20 @@ static const char *vh_step(const vh_step_t *st, vh_sb *ret, vh_sb *state) {
         p = vh_bytes(st->args[1], &n, 0);
         S[me] = from_input(OP("new_from_fp"), st->args[0], p, n, (spif_mbuff_t) NULL, &ok);
         sb_bool(ret, ok);
+    } else if (OP("new_fault") || OP("reinit_fault")) {
+        /* args: ctor(fp|fd) kind bytes schedule ; the return token carries the environment's observations */
+        spif_bool_t ok = FALSE, r1 = TRUE;
+        int use_fp = !strcmp(st->args[0], "fp");
+        p = vh_bytes(st->args[2], &n, 0);
+        if (OP("new_fault")) {
+            NEED_ABSENT(me);
+            S[me] = from_input_fault(use_fp, st->args[1], p, n, st->args[3], (spif_mbuff_t) NULL, &ok);
+        } else {
+            NEED_LIVE(me);
+            r1 = M_DONE(m);
+            (void) from_input_fault(use_fp, st->args[1], p, n, st->args[3], m, &ok);
+        }
+        sb_printf(ret, "{d=%ld,eintr=%c,hard=%c,ok=%c}", f_delivered, f_hit_eintr ? 'T' : 'F', f_hit_hard ? 'T' : 'F', (ok && r1) ? 'T' : 'F');
     } else if (OP("reinit")) {
         /* done() followed by an init_*() call on the same object */
         const char *ctor = st->args[0];
